@@ -1133,6 +1133,8 @@ def run(ctx):
     ctx.attempt(check_ctrapezoid_tables, ctx, db)
     ctx.attempt(check_binary_values, ctx, db)
     ctx.attempt(check_tagunion, ctx, db)
+    from . import C19   # every polygon's vertices go through the point-list encoder: its closing edge decides whether a vertex may be dropped
+    ctx.attempt(C19.check_closing_edge_source, ctx, db)
 
 
 MANIFEST = dict(
